@@ -420,7 +420,11 @@ class Type1Tag(Tag):
             raise ValueError("invalid byte address")
         log.debug("read byte at address {0} ({0:02X}h)".format(addr))
         cmd = bytearray([0x01, addr, 0x00]) + self.uid
-        return self.transceive(cmd)[-1]
+        rsp = self.transceive(cmd)
+        if len(rsp) < 2:
+            # not even the address and data byte
+            raise Type1TagCommandError(RESPONSE_ERROR)
+        return rsp[-1]
 
     def read_block(self, block):
         """Read an 8-byte data block at address (block * 8).
